@@ -5,6 +5,8 @@ import DiskfsModel.Model.Sqfs.Meta
 import DiskfsModel.Model.Sqfs.Codec
 import DiskfsModel.Model.Sqfs.Reader
 import DiskfsModel.Model.Sqfs.Regions
+import DiskfsModel.Model.Sqfs.Inode
+import DiskfsModel.Model.Sqfs.Walk
 namespace Driver.Sqfs
 open Diskfs Diskfs.Sqfs Driver
 
@@ -101,6 +103,122 @@ def chunksOp (args : List String) : String :=
   | some s => s!"c={natsStr (chunkGT (natList s) 0)}"
   | none => s!"c={natsStr (chunkGE (argNatD args "e") (argNatD args "n") 0)}"
 
+/-! ### inode and directory-table codecs -/
+
+def blkOf (w : Nat) : Blk := Blk.ofWord w
+
+/-- inode from numbers: t= type, h=mode,uid,gid,mtime,index f=body fields in on-disk order bl=block words tg=hex target -/
+def inodeOf (args : List String) : Option Inode :=
+  let h := lst args "h"
+  let f := lst args "f"
+  let g := fun (i : Nat) => f.getD i 0
+  let bl := (lst args "bl").map blkOf
+  let hdr : IHdr := { mode := h.getD 0 0, uid := h.getD 1 0, gid := h.getD 2 0, mtime := h.getD 3 0, index := h.getD 4 0 }
+  match argNatD args "t" with
+  | 1 => some ⟨hdr, .basicDir (g 0) (g 1) (g 2) (g 3) (g 4)⟩
+  | 8 => some ⟨hdr, .extDir (g 0) (g 1) (g 2) (g 3) (g 4) (g 5)⟩
+  | 2 => some ⟨hdr, .basicFile (g 0) (g 1) (g 2) (g 3) bl⟩
+  | 9 => some ⟨hdr, .extFile (g 0) (g 1) (g 2) (g 3) (g 4) (g 5) (g 6) bl⟩
+  | 3 => some ⟨hdr, .basicSymlink (g 0) ((argHex args "tg").getD [])⟩
+  | _ => none
+
+def inodeStr (i : Inode) : String :=
+  let h := i.hdr
+  let hs := natsStr [h.mode, h.uid, h.gid, h.mtime, h.index]
+  let (f, bl, tg) : List Nat × List Blk × Bytes := match i.body with
+    | .basicDir a b c d e => ([a, b, c, d, e], [], [])
+    | .extDir a b c d e f => ([a, b, c, d, e, f], [], [])
+    | .basicFile a b c d bl => ([a, b, c, d], bl, [])
+    | .extFile a b c d e f g bl => ([a, b, c, d, e, f, g], bl, [])
+    | .basicSymlink a t => ([a], [], t)
+  s!"t={i.body.typ}\th={hs}\tf={natsStr f}\tbl={natsStr (bl.map Blk.word)}\ttg={toHex tg}"
+
+/-- sqfs.inode (fields) → b=hex of `encodeInode`, n=`Inode.size` -/
+def inodeEnc (args : List String) : String :=
+  match inodeOf args with
+  | none => "err"
+  | some i => s!"b={toHex (encodeInode i)}\tn={i.size}"
+
+/-- sqfs.inodeparse b=hex bs= → the fields `decodeInode` finds and the bytes it used -/
+def inodeDec (args : List String) : String :=
+  let b := (argHex args "b").getD []
+  match decodeInode (argNatD args "bs" 4096) b with
+  | none => "err"
+  | some (i, rest) => inodeStr i ++ s!"\tused={b.length - rest.length}"
+
+/-- entries: offset:inode:type:namehex:startBlock separated by ';' -/
+def dentsOf (s : String) : List DEnt :=
+  if s == "" || s == "-" then [] else (s.splitOn ";").filterMap fun e =>
+    match e.splitOn ":" with
+    | [o, i, t, n, sb] => some { offset := o.toNat!, inodeNumber := i.toNat!, typ := t.toNat!, name := (fromHex n).getD [], startBlock := sb.toNat! }
+    | _ => none
+
+def dentsStr (l : List DEnt) : String :=
+  if l.isEmpty then "-" else ";".intercalate (l.map fun e => s!"{e.offset}:{e.inodeNumber}:{e.typ}:{toHex e.name}:{e.startBlock}")
+
+/-- sqfs.dir base= es=… → b=hex of `encodeListing` -/
+def dirEnc (args : List String) : String :=
+  s!"b={toHex (encodeListing (argNatD args "base") (dentsOf ((arg args "es").getD "-")))}"
+
+/-- sqfs.dirparse b=hex → es=… as `decodeDir` returns them -/
+def dirDec (args : List String) : String :=
+  let b := (argHex args "b").getD []
+  match decodeDir (b.length + 1) b with
+  | none => "err"
+  | some l => s!"es={dentsStr l}"
+
+/-- all inodes of a metadata stream, front to back -/
+def decodeAllInodes (bs : Nat) : Nat → Bytes → List (Inode × Nat) → Option (List (Inode × Nat))
+  | 0, _, _ => none
+  | fuel+1, b, acc =>
+    if b.isEmpty then some acc.reverse else
+    match decodeInode bs b with
+    | none => none
+    | some (i, rest) => decodeAllInodes bs fuel rest ((i, b.length - rest.length) :: acc)
+
+/-- sqfs.inodetable b=hex bs= → number of inodes, their sizes, a CRC over their fields, and whether
+    re-encoding them gives the stream back -/
+def inodeTable (args : List String) : String :=
+  let b := (argHex args "b").getD []
+  match decodeAllInodes (argNatD args "bs" 4096) (b.length + 1) b [] with
+  | none => "err"
+  | some l =>
+    let txt := "\n".intercalate (l.map fun (i, _) => inodeStr i)
+    let re := (l.map fun (i, _) => encodeInode i).flatten == b
+    let szOK := l.all fun (i, n) => i.size == n
+    s!"n={l.length}\tsizes={natsStr (l.map (·.2))}\tcrc={crc32 txt.toUTF8.toList}\tre={if re && szOK then 1 else 0}"
+
+/-! ### the pure tree reader over the uncompressed metadata streams -/
+
+def strOf (b : Bytes) : String :=
+  match String.fromUTF8? ⟨b.toArray⟩ with
+  | some s => s
+  | none => toHex b
+
+/-- sqfs.walkp i=hex(inode stream) d=hex(directory stream) bs= rblk= roff= → the tree `sqWalk` finds:
+    path|d, path|f|size, path|l|target, sorted by path.  References of images with uncompressed
+    metadata: inode block reference = byte offset of the 8194-byte block in the table, listing block
+    reference = index of the 8 KiB block. -/
+def walkP (args : List String) : String :=
+  let env : WalkEnv := { bs := argNatD args "bs" 4096, I := (argHex args "i").getD [], D := (argHex args "d").getD [],
+                         ipos := fun blk off => blk / 8194 * 8192 + off, dpos := fun sb off => sb * 8192 + off }
+  match decodeInode env.bs (env.I.drop (env.ipos (argNatD args "rblk") (argNatD args "roff"))) with
+  | none => "err=root"
+  | some (root, _) =>
+    match sqWalk env 64 [] root with
+    | none => "err=walk"
+    | some l =>
+      let rows := l.map fun (p, i) =>
+        let ps := "/".intercalate (p.map strOf)
+        (ps, match i.body with
+          | .basicDir .. => s!"{ps}|d"
+          | .extDir .. => s!"{ps}|d"
+          | .basicFile _ _ _ fs _ => s!"{ps}|f|{fs}"
+          | .extFile _ fs _ _ _ _ _ _ => s!"{ps}|f|{fs}"
+          | .basicSymlink _ t => s!"{ps}|l|{strOf t}")
+      let sorted := rows.foldr (insertBy fun (a b : String × String) => a.1 < b.1) []
+      s!"n={l.length}\tv={";".intercalate (sorted.map (·.2))}"
+
 end Driver.Sqfs
 
 partial def loop (h : IO.FS.Stream) (out : IO.FS.Stream) : IO Unit := do
@@ -118,6 +236,12 @@ partial def loop (h : IO.FS.Stream) (out : IO.FS.Stream) : IO Unit := do
       | "sqfs.image" => Driver.Sqfs.image args
       | "sqfs.regions" => pure (Driver.Sqfs.regionsOp args)
       | "sqfs.chunks" => pure (Driver.Sqfs.chunksOp args)
+      | "sqfs.inode" => pure (Driver.Sqfs.inodeEnc args)
+      | "sqfs.inodeparse" => pure (Driver.Sqfs.inodeDec args)
+      | "sqfs.dir" => pure (Driver.Sqfs.dirEnc args)
+      | "sqfs.dirparse" => pure (Driver.Sqfs.dirDec args)
+      | "sqfs.inodetable" => pure (Driver.Sqfs.inodeTable args)
+      | "sqfs.walkp" => pure (Driver.Sqfs.walkP args)
       | _ => pure "unknown-op"
     out.putStrLn s!"model\t{id}\t{r}"
   | _ => pure ()
